@@ -237,6 +237,21 @@ func runC20Seq(t *testing.T, ops []string) (sig, msg string) {
 func TestC20(t *testing.T) {
 	rep := newReport()
 	defer rep.Write(t)
+	var trp c20TReplay
+	if loadReplay(&trp) && trp.Scenario != "" {
+		for _, sc := range c20TScenarios() {
+			if sc.Name == trp.Scenario {
+				x := runT(t, sc, trp.Choices)
+				t.Logf("replay: verdict=%q %s results=%s", x.Verdict, x.Msg, resultsStr(x.Results))
+				if x.Verdict != "" {
+					rep.Violate("T:"+sc.Name+":"+x.Verdict, x.Msg, trp)
+				}
+			}
+		}
+		rep.States, rep.Transitions = 1, len(trp.Choices)+1
+		rep.Samples = append(rep.Samples, trp)
+		return
+	}
 	var rp c20Replay
 	if loadReplay(&rp) {
 		sig, msg := runC20Seq(t, rp.Ops)
@@ -300,6 +315,13 @@ func TestC20(t *testing.T) {
 	for _, pf := range prefixes {
 		dfs(pf, nil)
 	}
+	// ---- Engine T part
+	tb := 2
+	if thorough() {
+		tb = 3
+	}
+	rep.Bounds["T_preemption_bound"] = tb
+	runC20T(t, rep, tb)
 	rep.States = seqs
 	rep.Traces = seqs
 	rep.Evaluations = seqs
